@@ -77,6 +77,12 @@ def delBits? (σ : State) (id k : Nat) : Option State :=
 def appendBit (σ : State) (id : Nat) (b : Bool) : State := σ.setB id (σ.bitBuf id ++ [b])
 def fillBits (σ : State) (id : Nat) : State := σ.setB id (σ.bitBuf id ++ List.replicate ((8 - (σ.bitBuf id).length % 8) % 8) false)
 
+/-- a call made for its VALUE only (`self._data_bytes = self.get_data_bytes()`): what it did to the containers and objects that existed
+is kept, the containers it allocated are forgotten (nothing points at them: a plain value was returned).  `none` = it raised. -/
+def dropScratch (σ σ' : State) : State :=
+  { σ' with nBit := σ.nBit, bitBuf := fun j => if j < σ.nBit then σ'.bitBuf j else σ.bitBuf j }
+def scratch {α : Type} (σ : State) (r : Option (State × α)) : Option State := r.map fun p => dropScratch σ p.1
+
 /-- `for i in range(lo, hi): body` with the heap threaded through; `none` = the body raised -/
 def forFuel : Nat → Nat → State → (Nat → State → Option State) → Option State
   | 0, _, σ, _ => some σ
